@@ -348,6 +348,8 @@ class DagWorld(PathWorld):
         return super().resolve_name(ip, name, node)
 
     def load_attr(self, ip, obj, attr, node):
+        if isinstance(obj, FlagListV):
+            return BoundMethod(obj, attr)
         if isinstance(obj, GraphV):
             if attr == "snapshots":
                 return IdsV(False, note="G.snapshots")
@@ -357,6 +359,9 @@ class DagWorld(PathWorld):
         return super().load_attr(ip, obj, attr, node)
 
     def call_method(self, ip, obj, name, args, kwargs, node):
+        if isinstance(obj, FlagListV) and name == "index" and len(args) == 1 and isinstance(args[0], Const) and args[0].v is True:
+            # position of the first id >= x (resp. > x); ValueError when there is none is not modelled
+            return IdxV(obj.kind, obj.x)
         if isinstance(obj, GraphV) and name == "temporal_snapshots_ids" and not args:
             return IdsV(True)
         if isinstance(obj, IdsV) and name == "keys":
@@ -373,6 +378,8 @@ class DagWorld(PathWorld):
     def call_builtin(self, ip, name, args, kwargs, node):
         if name == "len" and len(args) == 1 and isinstance(args[0], IdsV):
             return LenIds()
+        if name in ("list", "tuple") and len(args) == 1 and isinstance(args[0], FlagListV):
+            return args[0]
         if name in ("list", "sorted", "tuple") and len(args) == 1 and isinstance(args[0], IdsV):
             if name == "sorted":
                 rev = kwargs.get("reverse")
@@ -440,6 +447,12 @@ class DagWorld(PathWorld):
             lo = ip.eval(sl.lower, env) if sl.lower is not None else None
             hi = ip.eval(sl.upper, env) if sl.upper is not None else None
             inc = True
+            for bound, which in ((lo, "start"), (hi, "stop")):
+                if isinstance(bound, Int):
+                    # a snapshot id where a list position is expected
+                    self.kind_confusions = getattr(self, "kind_confusions", []) + [(which, repr(bound), getattr(node, "lineno", 0))]
+            if isinstance(lo, Int) or isinstance(hi, Int):
+                return IdsV(True, included=self.choose("time-used-as-position"), note="slice by a time value")
             if lo is not None:
                 if not isinstance(lo, IdxV):
                     raise Unsupported(node, "slice start %r" % (lo,))
@@ -455,6 +468,13 @@ class DagWorld(PathWorld):
         if isinstance(e, (ast.ListComp, ast.GeneratorExp)) and len(e.generators) == 1:
             g = e.generators[0]
             it = ip.eval(g.iter, env)
+            # [i >= x for i in ids] : a list of flags, used with .index(True) to find a position
+            if isinstance(it, IdsV) and it.sorted and it.included is None and not g.ifs and isinstance(g.target, ast.Name) \
+                    and isinstance(e.elt, ast.Compare) and len(e.elt.ops) == 1 and isinstance(e.elt.left, ast.Name) \
+                    and e.elt.left.id == g.target.id and isinstance(e.elt.ops[0], (ast.GtE, ast.Gt)):
+                x = ip.eval(e.elt.comparators[0], env)
+                if isinstance(x, Int):
+                    return FlagListV("bl" if isinstance(e.elt.ops[0], ast.GtE) else "br", x)
             if isinstance(it, IdsV) and isinstance(g.target, ast.Name) and isinstance(e.elt, ast.Name) and e.elt.id == g.target.id:
                 env2 = dict(env)
                 env2[g.target.id] = Int("i")
@@ -472,6 +492,13 @@ class DagWorld(PathWorld):
         if isinstance(it, IdsV):
             raise StopPrefix(it, st)
         raise Unsupported(st, "iteration over %r" % (it,))
+
+
+class FlagListV:
+    """[i >= x for i in ids] (kind 'bl') / [i > x for i in ids] (kind 'br')."""
+
+    def __init__(self, kind, x):
+        self.kind, self.x = kind, x
 
 
 class GraphV:
@@ -513,13 +540,17 @@ def check_temporal_dag_window(repo: Repo, rep: Report):
                             env = {"G": GraphV(), "u": NodeV("U"), "v": NONE, "start": Int("S") if s_given else NONE,
                                    "end": Int("N") if n_given else NONE}
                             try:
-                                return ("returned", ip.call_function(fn, env))
+                                return ("returned", ip.call_function(fn, env), w)
                             except StopPrefix as sp:
-                                return ("loop", sp)
+                                return ("loop", sp, w)
                             except AbstractRaise as r:
-                                return ("raise", r)
-                        for ch, (kind, val) in run_all_choices(once, max_runs=64):
+                                return ("raise", r, w)
+                        for ch, (kind, val, w_) in run_all_choices(once, max_runs=64):
                             n_runs += 1
+                            for (which, what, line) in getattr(w_, "kind_confusions", []):
+                                add("time-as-position:%s" % which, "the snapshot id %s is used as the %s position of a slice of the id list: "
+                                    "ids are times, not list positions" % (what, which), "start %s, end %s | order: %s" % (
+                                        "given" if s_given else "None", "given" if n_given else "None", ot.describe()), line)
                             wit = "start %s, end %s | order: %s%s" % ("given (S)" if s_given else "None", "given (N)" if n_given else "None",
                                                                      ot.describe(), (" | " + ", ".join("%s=%s" % kv for kv in ch.items())) if ch else "")
                             empty = ch.get("no-snapshots", False)
